@@ -649,7 +649,8 @@ func (e *Engine) solve(o *Oblig, dir string, timeoutS int, prelude string) {
 		}
 		if !o.Cover {
 			adj := filepath.Join(dir, sanitize(o.ID)+".adj.smt2")
-			jobs = append(jobs, job{solvers[0], adj, "z3-new/adj", timeoutS, false}, job{solvers[1], adj, "cvc5/adj", timeoutS, false})
+			qf := filepath.Join(dir, sanitize(o.ID)+".qf.smt2")
+			jobs = append(jobs, job{solvers[0], adj, "z3-new/adj", timeoutS, false}, job{solvers[1], adj, "cvc5/adj", timeoutS, false}, job{solvers[0], qf, "z3-new/qf", timeoutS, false})
 		}
 		best = run(jobs)
 	}
